@@ -16,7 +16,7 @@ DrainedNH == /\ inq = <<>> /\ pc = "idle"
              /\ \A c \in Clients : (cst[c] # "off" /\ ~held[c]) => (cst[c] = "follow" /\ ccr[c] = Len(crumbs) /\ net[c] = <<>>)
 Settle == DrainedNH /\ UNCHANGED vars
 
-Strip(us) == [i \in DOMAIN us |-> [k |-> us[i].k, del |-> us[i].del]]
+Strip(us) == [i \in DOMAIN us |-> [k |-> us[i].k, val |-> us[i].val, del |-> us[i].del]]
 
 GNext ==
   \/ /\ Len(hist) = SimLen /\ hist' = Append(hist, [op |-> "end"]) /\ UNCHANGED vars
